@@ -1,6 +1,6 @@
 (* C12: sort_rows emits a stable, correctly ordered permutation. *)
 From Coq Require Import List ZArith Bool Permutation Sorted.
-From DF Require Import Base.Str Base.Value Proc.RowOps Proc.Fields Proc.Sort Proc.Sort_proofs Gen.Consts.
+From DF Require Import Base.Str Base.Value Proc.RowOps Proc.Fields Proc.Sort Proc.Sort_proofs Proc.SortFloat_proofs Gen.Consts.
 Import ListNotations.
 Open Scope Z_scope.
 
@@ -49,6 +49,39 @@ Theorem C12_reverse_is_rev : forall w kc rows out,
   sorter w kc false rows = Ok out -> sorter w kc true rows = Ok (rev out).
 Proof. exact sorter_reverse. Qed.
 Print Assumptions C12_reverse_is_rev.
+
+(* Numeric sort keys.  For numbers m * 2^e with a mantissa below 2^53 (every binary64 value
+   has this form) the 64-bit key orders exactly like the numbers: the comparison of the values,
+   stated over the integers m * 2^(e-S) for any common scale S, is the comparison of the keys.
+   Positives, negatives (order reversed by the bit inversion) and the position of zero. *)
+Theorem C12_numeric_key_monotone_positive : forall m e m' e' S,
+  0 < m < 2 ^ 53 -> 0 < m' < 2 ^ 53 ->
+  S <= e -> S <= e' -> S <= Z.log2 m + e - 52 -> S <= Z.log2 m' + e' - 52 ->
+  (m * 2 ^ (e - S) < m' * 2 ^ (e' - S) <-> num_key m e < num_key m' e').
+Proof. exact num_key_monotone_pos. Qed.
+Print Assumptions C12_numeric_key_monotone_positive.
+
+Theorem C12_numeric_key_monotone_negative : forall m e m' e' S,
+  0 < m < 2 ^ 53 -> 0 < m' < 2 ^ 53 ->
+  S <= e -> S <= e' -> S <= Z.log2 m + e - 52 -> S <= Z.log2 m' + e' - 52 ->
+  (m' * 2 ^ (e' - S) < m * 2 ^ (e - S) <-> num_key (- m) e < num_key (- m') e').
+Proof. exact num_key_monotone_neg. Qed.
+Print Assumptions C12_numeric_key_monotone_negative.
+
+Theorem C12_numeric_key_sign_order : forall m e m' e',
+  0 < m < 2 ^ 53 -> 0 < m' < 2 ^ 53 -> -1022 <= Z.log2 m + e <= 1023 -> -1022 <= Z.log2 m' + e' <= 1023 ->
+  num_key (- m) e < num_key 0 0 /\ num_key 0 0 < num_key m' e'.
+Proof. exact num_key_sign_order. Qed.
+Print Assumptions C12_numeric_key_sign_order.
+
+Theorem C12_numeric_key_hex_order : forall a b,
+  0 <= a < 2 ^ 64 -> 0 <= b < 2 ^ 64 -> str_ltb (hexw 16 a) (hexw 16 b) = (a <? b).
+Proof. exact hex_key_order. Qed.
+Print Assumptions C12_numeric_key_hex_order.
+
+(* premises are satisfiable: 2.5 < 3 (5*2^-1 vs 3*2^0, scale -52) *)
+Example C12_numeric_nonvacuous : num_key 5 (-1) < num_key 3 0 /\ num_key (-3) 0 < num_key (-5) (-1).
+Proof. vm_compute. split; reflexivity. Qed.
 
 (* tie to the source: the suffix width the code uses (regenerated constant) covers 16^8 rows *)
 Theorem C12_suffix_width_from_source : c_sort_suffix_width = 8%nat.
